@@ -422,11 +422,23 @@ def run_property(pid, tier, seed, cfg, scratch, t0):
     attempts_cfg = cfg.get("replay_attempts", 1)
     per_pkg = {}
     reps = {}
+    def known_match(sig):
+        for kf in known.get("findings", []):
+            if kf["property"] == pid and fnmatch.fnmatchcase(sig, kf["signature"]):
+                return kf
+        return None
+    demonstrated = set()  # replay paths of listed findings whose native demonstration is committed (schedule-dependent)
     for sig, lst in by_sig.items():
         reps[sig] = []
         for run, v in lst[: cfg.get("replays_per_signature", 2)]:
             path = write_replay(pid, run, v)
             reps[sig].append((run, v, path))
+            kf = known_match(sig)
+            if kf and kf.get("native_demonstration") and run.get("known_no_replay"):
+                # a listed, schedule-dependent finding: reproducing it natively takes a stress loop of
+                # unpredictable length; its native demonstration was recorded with the finding
+                demonstrated.add(path)
+                continue
             if not cfg.get("no_native_replay") and not run.get("no_native"):
                 per_pkg.setdefault(run["pkg"], []).append((run["entry"], path))
     replay_log = ""
@@ -462,7 +474,10 @@ def run_property(pid, tier, seed, cfg, scratch, t0):
         for run, v, path in lst:
             r = replay_results.get(path)
             ok = False
-            if cfg.get("no_native_replay") or run.get("no_native"):
+            if path in demonstrated:
+                ok = True
+                r = "not-replayed (listed schedule-dependent finding; native demonstration: %s)" % known_match(sig).get("native_demonstration")
+            elif cfg.get("no_native_replay") or run.get("no_native"):
                 ok = True
                 r = "not-replayed (the harness depends on engine-side stubs that have no native counterpart)"
             elif v["kind"] == "cover":
